@@ -185,9 +185,9 @@ def gen_cases(rng, tier, budget):
     cases.append("seq " + " ".join("s %s" % key(100, c, "02aabbcc%02x%02x" % (a, b))
                                    for c in (0, 5, 15, 16) for a in (0, 9, 255) for b in (0, 1, 8, 15, 16, 255)))
     quick = tier == "quick"
-    nseq = budget or (1200 if quick else 20000)
-    nconc = (budget // 4) if budget else (220 if quick else 4000)
-    nrace = (budget // 20) if budget else (40 if quick else 500)
+    nseq = budget or (1500 if quick else 40000)
+    nconc = (budget // 4) if budget else (500 if quick else 10000)
+    nrace = (budget // 20) if budget else (80 if quick else 1200)
     for who in ("ipoe", "pppoe"):
         other = "pppoe" if who == "ipoe" else "ipoe"
         k = POOL[0]
